@@ -20,6 +20,9 @@ One generated file per area, so that a change of one constant only concerns the 
                      schema/strategy.rs (`STRATEGY_KEY`)
   ConstantsExt       schema/extensions/{bool8_field,fixed_shape_tensor_field,variable_shape_tensor_field}.rs (metadata keys,
                      extension names, the literal pieces of the metadata text, the `"element"` name check, child field names)
+  ConstantsExtUtils  schema/extensions/utils.rs: the BODIES of `JsonString::fmt` (the arms of its `match` as data), `check_permutation`,
+                     `check_dim_names` (statement lists) and `write_list` (its literal pieces), over the vocabulary of the hand-written
+                     lean/SaModel/Ext/UtilsGen.lean (C20 only; not part of the umbrella `Constants`)
   ConstantsMessages  every message text of `fail!(…)` / `Error::custom(…)` / `Error::custom_from(…)` under src/internal
                      (non-test code), per file
 
@@ -88,6 +91,8 @@ class Out:
         self.sources = sources
         self.lines = []
         self.prov = []
+        self.imports = []   # modules of hand-written vocabulary the definitions use (SaModel.Ext.UtilsGen for ConstantsExtUtils)
+        self.opens = []
 
     def define(self, name, ty, value, src, rust, note=None):
         rust1 = " ".join(rust.split())
@@ -99,9 +104,11 @@ class Out:
 
     def text(self):
         head = [f"-- generated by translator/run.py (constants.py) from {', '.join(self.sources)}",
-                "-- — do not edit; ./check regenerates this file from the repository before every build",
-                f"namespace SaModel.Generated.{self.module}",
-                ""]
+                "-- — do not edit; ./check regenerates this file from the repository before every build"] \
+            + [f"import {m}" for m in self.imports] \
+            + [f"namespace SaModel.Generated.{self.module}"] \
+            + [f"open {m}" for m in self.opens] \
+            + [""]
         tail = ["/-- (definition, source file, the Rust text it was read from) for every definition above -/",
                 "def provenance : List (String × String × String) := "
                 + llist([f"({lstr(a)}, {lstr(b)}, {lstr(c)})" for a, b, c in self.prov], per_line=True),
@@ -137,13 +144,23 @@ def is_i(t, text=None):
     return t.kind == "ident" and (text is None or t.text == text)
 
 
+def rust_char(c):
+    """the inside of a Rust character literal"""
+    simple = {"\\": "\\\\", "'": "\\'", "\n": "\\n", "\r": "\\r", "\t": "\\t", "\0": "\\0"}
+    if c in simple:
+        return simple[c]
+    if len(c) == 1 and (ord(c) < 32 or ord(c) == 127):
+        return "\\u{%x}" % ord(c)
+    return c
+
+
 def rust_text(toks):
     """the tokens as Rust text (spacing normalised; only for provenance and messages)"""
     out = []
     prev = None
     for t in toks:
         s = '"' + t.text.replace("\\", "\\\\").replace('"', '\\"').replace("\n", "\\n") + '"' if t.kind == "str" else (
-            "'" + t.text + "'" if t.kind == "char" else t.text)
+            "'" + rust_char(t.text) + "'" if t.kind == "char" else t.text)
         if prev is not None:
             tight_after = prev.kind == "punct" and prev.text in ("(", "[", ".", "::", "!", "&", "..", "..=")
             tight_before = t.kind == "punct" and t.text in (")", "]", ".", ",", ";", "::", "?", "(", "!", "[", "..", "..=")
@@ -1081,6 +1098,475 @@ def render_ext(repo):
     return out.text()
 
 
+# ---------------------------------------------------------------- ExtUtils: the bodies of schema/extensions/utils.rs
+
+CMP = {"<": ".lt", "<=": ".le", ">": ".gt", ">=": ".ge", "==": ".eq", "!=": ".ne"}
+
+
+def lchar(c):
+    """a Lean `Char` literal"""
+    o = ord(c)
+    if c == "'":
+        return "'\\''"
+    if c == "\\":
+        return "'\\\\'"
+    if c == "\n":
+        return "'\\n'"
+    if c == "\t":
+        return "'\\t'"
+    if c == "\r":
+        return "'\\r'"
+    if 32 <= o < 127:
+        return "'" + c + "'"
+    if o <= 0xFFFF and not (0xD800 <= o <= 0xDFFF):
+        return "'\\u%04x'" % o
+    return f"(Char.ofNat {o})"
+
+
+def int_lit(src, t):
+    """an integer literal in any radix (`0x20`, `32`, `0b10_0000`, `32u32`) → value"""
+    m = re.fullmatch(r"(0x[0-9a-fA-F_]+?|0o[0-7_]+?|0b[01_]+?|[0-9][0-9_]*?)_?((?:[iu](?:8|16|32|64|128|size))?)", t.text) if t.kind == "num" else None
+    if not m:
+        src.bad([t], "not an integer literal")
+    body = m.group(1).replace("_", "")
+    return int(body, 0) if body[:2] in ("0x", "0o", "0b") else int(body)
+
+
+def unbrace_format(src, toks, fmt):
+    """a format string without placeholders → the text it writes (`{{` ↦ `{`, `}}` ↦ `}`); a placeholder is refused"""
+    out, i = [], 0
+    while i < len(fmt):
+        ch = fmt[i]
+        if ch in "{}":
+            if i + 1 < len(fmt) and fmt[i + 1] == ch:
+                out.append(ch)
+                i += 2
+                continue
+            src.bad(toks, "a format string with a placeholder where a literal text is expected")
+        out.append(ch)
+        i += 1
+    return "".join(out)
+
+
+def split_placeholder(src, toks, fmt):
+    """a format string with exactly one placeholder → (text before, the placeholder without braces, text after)"""
+    pieces, cur, i, spec = [], [], 0, None
+    while i < len(fmt):
+        ch = fmt[i]
+        if ch in "{}" and i + 1 < len(fmt) and fmt[i + 1] == ch:
+            cur.append(ch)
+            i += 2
+        elif ch == "{":
+            j = fmt.find("}", i)
+            if j < 0 or spec is not None:
+                src.bad(toks, "a format string that does not have exactly one placeholder")
+            spec = fmt[i + 1:j]
+            pieces.append("".join(cur))
+            cur = []
+            i = j + 1
+        elif ch == "}":
+            src.bad(toks, "a format string with an unmatched `}`")
+        else:
+            cur.append(ch)
+            i += 1
+    if spec is None:
+        src.bad(toks, "a format string that does not have exactly one placeholder")
+    return pieces[0], spec, "".join(cur)
+
+
+def body_statements(src, toks):
+    """statements of a block: [(tokens, is the tail expression)]; `use …;` items are dropped"""
+    from adapter_bodies import statements
+    return [(st, tail) for st, tail in statements(toks, src.rel) if st and not is_i(st[0], "use")]
+
+
+def strip_try(toks):
+    return toks[:-1] if toks and is_p(toks[-1], "?") else toks
+
+
+def unblock(src, toks):
+    """`{ … }` → the tokens inside; anything else unchanged"""
+    if toks and is_p(toks[0], "{") and match_close(toks, 0, src.rel) == len(toks) - 1:
+        return toks[1:-1]
+    return toks
+
+
+def params_of(src, sig):
+    """signature tokens → the parameter token lists"""
+    a = 0
+    while a < len(sig) and not is_p(sig[a], "("):
+        a += 1
+    if a >= len(sig):
+        src.bad(sig, "no parameter list")
+    return split_top(sig[a + 1:match_close(sig, a, src.rel)], ",")
+
+
+def param_name(src, p):
+    q = p[1:] if p and is_i(p[0], "mut") else p
+    if len(q) < 3 or not is_i(q[0]) or not is_p(q[1], ":"):
+        src.bad(p, "parameter that is not `name: Type`")
+    return q[0].text
+
+
+def literal_write(src, toks, fmtr):
+    """one write of a literal text into the formatter / string `fmtr`:
+    `F.write_str("…")`, `F.write_char('c')`, `F.push_str("…")`, `F.push('c')`, `write!(F, "…")` (no placeholder), each with or without `?`
+    → the text, or None when the tokens are not such a write"""
+    t = strip_try(toks)
+    tx = texts(t)
+    if len(t) == 6 and tx[0] == fmtr and tx[1] == "." and tx[2] in ("write_str", "write_char", "push_str", "push") and tx[3] == "(" and tx[5] == ")":
+        want = "str" if tx[2] in ("write_str", "push_str") else "char"
+        if t[4].kind != want or t[0].kind != "ident":
+            return None
+        return t[4].text
+    if len(t) >= 6 and tx[:3] == ["write", "!", "("] and match_close(t, 2, src.rel) == len(t) - 1:
+        args = split_top(drop_trailing_comma(t[3:-1]), ",")
+        dest = texts(args[0]) if args else []
+        if dest in ([fmtr], ["&", "mut", fmtr]) and len(args) == 2 and len(args[1]) == 1 and args[1][0].kind == "str":
+            return unbrace_format(src, toks, args[1][0].text)
+    return None
+
+
+def literal_writes(src, toks, fmtr, what):
+    """an arm body / block that only writes literal texts → their concatenation"""
+    parts = []
+    for st, _ in body_statements(src, unblock(src, strip_try(toks)) if is_p(toks[0], "{") else toks):
+        w = literal_write(src, st, fmtr)
+        if w is None:
+            src.bad(st, f"{what}: not a write of a literal text into `{fmtr}`")
+        parts.append(w)
+    if not parts:
+        src.bad(toks, f"{what}: writes nothing")
+    return "".join(parts)
+
+
+def as_u32(toks, var):
+    """`var as u32`, `(var as u32)`, `u32::from(var)`, `var.into()` is refused → True when the tokens are the code point of `var`"""
+    tx = texts(toks)
+    while len(tx) >= 2 and tx[0] == "(" and tx[-1] == ")":
+        tx = tx[1:-1]
+    return tx in ([var, "as", "u32"], ["u32", "::", "from", "(", var, ")"])
+
+
+def render_ext_utils(repo):
+    su = Src(repo, f"{INTERNAL}/schema/extensions/utils.rs")
+    out = Out("ConstantsExtUtils", [su.rel])
+    out.imports.append("SaModel.Ext.UtilsGen")
+    out.opens.append("SaModel.Ext")
+
+    # ---- impl<…> … Display for JsonString<…> { fn fmt(&self, F: &mut …Formatter<'_>) -> …Result { … } }
+    hits = []
+    for i in find_all(su.toks, ["impl"]):
+        a, b = block_after(su, su.toks, i)
+        head = texts(su.toks[i + 1:a])
+        if "Display" in head and "for" in head and "JsonString" in head[head.index("for"):]:
+            hits.append(su.toks[a + 1:b])
+    if len(hits) != 1:
+        raise Unrecognised(f"{su.rel}: expected exactly one `impl … Display for JsonString…`, found {len(hits)}")
+    sig, fb = fn_parts(su, hits[0], "fmt")
+    ps = params_of(su, sig)
+    if len(ps) != 2 or texts(ps[0]) != ["&", "self"]:
+        su.bad(sig, "fmt is not `fn fmt(&self, f: &mut Formatter)`")
+    F = param_name(su, ps[1])
+    stmts = body_statements(su, fb)
+    loops = [k for k, (st, _) in enumerate(stmts) if is_i(st[0], "for")]
+    if len(loops) != 1:
+        su.bad(fb, "JsonString::fmt does not have exactly one `for` loop")
+    k = loops[0]
+
+    def writes_of(part, what):
+        res = []
+        for st, tail in part:
+            if tail and texts(st) == ["Ok", "(", "(", ")", ")"]:
+                continue
+            w = literal_write(su, st, F)
+            if w is None:
+                su.bad(st, f"JsonString::fmt: {what}: not a write of a literal text into `{F}`")
+            res.append(w)
+        return "".join(res)
+
+    opening = writes_of(stmts[:k], "statement before the loop")
+    closing = writes_of(stmts[k + 1:], "statement after the loop")
+    loop = stmts[k][0]
+    # for VAR in self.0.as_ref().chars() { match VAR { arms } }
+    if not (len(loop) > 3 and is_i(loop[1]) and is_i(loop[2], "in")):
+        su.bad(loop, "the loop is not `for <var> in <chars> { … }`")
+    var = loop[1].text
+    a, b = block_after(su, loop, 3)
+    iter_text = rust_text(loop[3:a])
+    if texts(loop[3:a]) not in (["self", ".", "0", ".", "as_ref", "(", ")", ".", "chars", "(", ")"],):
+        su.bad(loop[3:a], "the loop does not run over `self.0.as_ref().chars()`")
+    if b != len(loop) - 1:
+        su.bad(loop[b:], "tokens after the loop body")
+    inner = body_statements(su, loop[a + 1:b])
+    if len(inner) != 1:
+        su.bad(loop[a + 1:b], "the loop body is not a single `match`")
+    m = strip_try(inner[0][0])
+    if not (len(m) > 3 and is_i(m[0], "match") and texts(m[1:3]) == [var, "{"] and match_close(m, 2, su.rel) == len(m) - 1):
+        su.bad(m, f"the loop body is not `match {var} {{ … }}`")
+    arms = []
+    rust_arms = []
+    done = False
+    for pat, body in match_arms(su, m[3:-1]):
+        if done:
+            su.bad(pat, "an arm after the catch-all arm")
+        body = strip_try(body)
+        rust_arms.append(rust_text(pat) + " => " + rust_text(body))
+        alts = split_top(pat, "|")
+        if all(len(x) == 1 and x[0].kind == "char" for x in alts):
+            text = literal_writes(su, body, F, "arm of a literal character")
+            for x in alts:
+                arms.append(f".lit {lchar(x[0].text)} {lstr(text)}")
+            continue
+        if len(pat) == 1 and (is_i(pat[0]) or is_p(pat[0], "_")):
+            # c => f.write_char(c)
+            name = var if pat[0].text == "_" else pat[0].text
+            b2 = strip_try(unblock(su, body))
+            if b2 and is_p(b2[-1], ";"):
+                b2 = strip_try(b2[:-1])
+            if texts(b2) != [F, ".", "write_char", "(", name, ")"]:
+                su.bad(body, f"the catch-all arm is not `{F}.write_char({name})`")
+            arms.append(".copy")
+            done = True
+            continue
+        if len(pat) > 2 and is_i(pat[0]) and is_i(pat[1], "if"):
+            # c if (c as u32) < N => write!(f, "pre{:0Wx}post", c as u32)
+            name = pat[0].text
+            guard = pat[2:]
+            ops = [j for j, t in enumerate(guard) if t.kind == "punct" and t.text in ("<", "<=")]
+            # `u32::from(c) < N` holds no other `<`; a generic argument list would: refuse more than one
+            if len(ops) != 1:
+                su.bad(pat, "the guard is not `<code point of the character> < BOUND`")
+            lhs, op, rhs = guard[:ops[0]], guard[ops[0]].text, guard[ops[0] + 1:]
+            if as_u32(lhs, name) and len(rhs) == 1 and rhs[0].kind == "num":
+                bound = int_lit(su, rhs[0])
+            elif texts(lhs) == [name] and len(rhs) == 1 and rhs[0].kind == "char" and len(rhs[0].text) == 1:
+                bound = ord(rhs[0].text)
+            else:
+                su.bad(pat, "the guard is not `(c as u32) < INTEGER`, `u32::from(c) < INTEGER` or `c < 'CHAR'`")
+            if op == "<=":
+                bound += 1
+            b2 = strip_try(unblock(su, body))
+            if b2 and is_p(b2[-1], ";"):
+                b2 = strip_try(b2[:-1])
+            ok = len(b2) > 4 and texts(b2[:3]) == ["write", "!", "("] and match_close(b2, 2, su.rel) == len(b2) - 1
+            args = split_top(drop_trailing_comma(b2[3:-1]), ",") if ok else []
+            if not (ok and len(args) == 3 and texts(args[0]) in ([F], ["&", "mut", F]) and len(args[1]) == 1 and args[1][0].kind == "str"
+                    and as_u32(args[2], name)):
+                su.bad(body, f"the guarded arm is not `write!({F}, \"…{{:04x}}…\", {name} as u32)`")
+            pre, spec, post = split_placeholder(su, body, args[1][0].text)
+            sm = re.fullmatch(r":(0?)([0-9]*)([xX])", spec)
+            if not sm:
+                su.bad(body, f"placeholder `{{{spec}}}` is not a hexadecimal format `{{:0Wx}}`")
+            arms.append(f".hexBelow {bound} {lstr(pre)} {lbool(sm.group(1) == '0')} {int(sm.group(2) or 0)} {lbool(sm.group(3) == 'X')} {lstr(post)}")
+            continue
+        su.bad(pat, "match arm of JsonString::fmt that is neither a character literal, a `< BOUND` guard nor the catch-all")
+    if not done:
+        su.bad(m, "no catch-all arm")
+    out.define("jsonStringOpen", "String", lstr(opening), su, f"{F}.write_char('\"')?; for …", "the text written before the loop of `JsonString::fmt`")
+    out.define("jsonStringArms", "List EscArm", llist(arms, per_line=True), su,
+               f"for {var} in {iter_text} {{ match {var} {{ " + ", ".join(rust_arms) + " } }",
+               "the arms in source order (the first arm that matches is taken)")
+    out.define("jsonStringClose", "String", lstr(closing), su, f"… }} {F}.write_char('\"')", "the text written after the loop")
+
+    # ---- check_dim_names / check_permutation
+    def fail_only(block, what):
+        """`{ fail!(…); }`"""
+        inner = body_statements(su, block)
+        if len(inner) != 1 or texts(inner[0][0][:3]) != ["fail", "!", "("] or match_close(inner[0][0], 2, su.rel) != len(inner[0][0]) - 1:
+            su.bad(block, f"{what}: the block is not a single `fail!(…)`")
+
+    def if_parts(st, what):
+        """`if COND { fail!(…); }` → COND tokens"""
+        a, b = block_after(su, st, 1)
+        if b != len(st) - 1:
+            su.bad(st[b:], f"{what}: an `if` with an `else`")
+        fail_only(st[a + 1:b], what)
+        return st[1:a]
+
+    def checker(fname, lean_name, with_loop):
+        sig, fb = fn_parts(su, su.toks, fname)
+        ps = params_of(su, sig)
+        if len(ps) != 2:
+            su.bad(sig, f"{fname} does not have two parameters")
+        ndim, slc = param_name(su, ps[0]), param_name(su, ps[1])
+        if texts(ps[0][-1:]) != ["usize"]:
+            su.bad(ps[0], f"{fname}: the first parameter is not a `usize`")
+        env = {"seen": None, "item": None}
+
+        def expr(toks, what):
+            tx = texts(toks)
+            while len(tx) >= 2 and tx[0] == "(" and tx[-1] == ")" and match_close(toks, 0, su.rel) == len(toks) - 1:
+                toks, tx = toks[1:-1], tx[1:-1]
+            if tx == [ndim] and toks[0].kind == "ident":
+                return ".ndim"
+            if tx == [slc, ".", "len", "(", ")"]:
+                return ".sliceLen"
+            if env["seen"] and tx == [env["seen"], ".", "len", "(", ")"]:
+                return ".seenLen"
+            if env["item"] and tx in ([env["item"]], ["*", env["item"]]) and toks[-1].kind == "ident":
+                return ".item" if (len(tx) == 2) == env["deref"] else su.bad(toks, f"{what}: reference / value mismatch of the loop variable")
+            if len(toks) == 1 and toks[0].kind == "num":
+                return f"(.lit {int_lit(su, toks[0])})"
+            su.bad(toks, f"{what}: expression the translator does not know")
+
+        def comparison(cond, what):
+            ops = [j for j, t in enumerate(cond) if t.kind == "punct" and t.text in CMP]
+            if len(ops) != 1:
+                su.bad(cond, f"{what}: condition that is not one comparison")
+            j = ops[0]
+            return f"{expr(cond[:j], what)} {CMP[cond[j].text]} {expr(cond[j + 1:], what)}"
+
+        def seen_index(toks, what):
+            """`seen[E]` → E"""
+            if not (env["seen"] and len(toks) >= 4 and texts(toks[:2]) == [env["seen"], "["] and match_close(toks, 1, su.rel) == len(toks) - 1):
+                su.bad(toks, f"{what}: not an element `{env['seen']}[…]`")
+            return expr(toks[2:-1], what)
+
+        rows = []
+        for st, tail in body_statements(su, fb):
+            tx = texts(st)
+            what = f"{fname}"
+            if tail:
+                if tx != ["Ok", "(", "(", ")", ")"]:
+                    su.bad(st, f"{what}: the tail expression is not `Ok(())`")
+                rows.append(".retOk")
+            elif tx[0] == "if":
+                rows.append(".failIf " + comparison(if_parts(st, what), what))
+            elif with_loop and tx[:2] == ["let", "mut"] and len(st) > 6 and is_i(st[2]) and texts(st[3:7]) == ["=", "vec", "!", "["] \
+                    and match_close(st, 6, su.rel) == len(st) - 1:
+                parts = split_top(st[7:-1], ";")
+                if len(parts) != 2 or texts(parts[0]) not in (["false"], ["true"]):
+                    su.bad(st, f"{what}: not `let mut <v> = vec![false; <len>]`")
+                if env["seen"]:
+                    su.bad(st, f"{what}: a second vector")
+                init = parts[0][0].text
+                length = expr(parts[1], what)
+                env["seen"] = st[2].text
+                rows.append(f".letSeen {init} {length}")
+            elif with_loop and tx[0] == "for":
+                a, b = block_after(su, st, 1)
+                j = [q for q in range(1, a) if is_i(st[q], "in")]
+                if len(j) != 1 or b != len(st) - 1:
+                    su.bad(st, f"{what}: loop of an unknown shape")
+                binder, it = st[1:j[0]], texts(st[j[0] + 1:a])
+                bt = texts(binder)
+                if it in ([slc], [slc, ".", "iter", "(", ")"]) and ((len(bt) == 2 and bt[0] == "&") or len(bt) == 1) and is_i(binder[-1]) \
+                        or (it == [slc, ".", "iter", "(", ")", ".", "copied", "(", ")"] and len(bt) == 1 and is_i(binder[0])):
+                    # for &i in permutation { … }   /   for i in permutation { … *i … }   /   for i in permutation.iter().copied()
+                    env["item"] = binder[-1].text
+                    env["deref"] = len(bt) == 1 and "copied" not in it
+                    steps = []
+                    for s2, tail2 in body_statements(su, st[a + 1:b]):
+                        t2 = texts(s2)
+                        w2 = f"{what}: loop over `{slc}`"
+                        if tail2:
+                            su.bad(s2, f"{w2}: a tail expression")
+                        if t2[0] == "if":
+                            cond = if_parts(s2, w2)
+                            if env["seen"] and texts(cond[:2]) == [env["seen"], "["]:
+                                steps.append(f".failIfSeen {seen_index(cond, w2)} true")
+                            elif env["seen"] and texts(cond[:3]) == ["!", env["seen"], "["]:
+                                steps.append(f".failIfSeen {seen_index(cond[1:], w2)} false")
+                            else:
+                                steps.append(".failIf " + comparison(cond, w2))
+                        elif "=" in t2 and t2[-1] in ("true", "false") and t2[-2] == "=":
+                            steps.append(f".setSeen {seen_index(s2[:-2], w2)} {t2[-1]}")
+                        else:
+                            su.bad(s2, f"{w2}: statement of an unknown shape")
+                    env["item"] = None
+                    rows.append(".forSlice " + llist(steps))
+                elif env["seen"] and it in ([env["seen"], ".", "into_iter", "(", ")", ".", "enumerate", "(", ")"],
+                                            [env["seen"], ".", "iter", "(", ")", ".", "enumerate", "(", ")"]) \
+                        and len(binder) == 5 and is_p(binder[0], "(") and is_i(binder[1]) and is_p(binder[2], ",") and is_i(binder[3]) and is_p(binder[4], ")"):
+                    # for (i, seen) in seen.into_iter().enumerate() { if !seen { fail!(…) } }
+                    flag = binder[3].text
+                    star = ["*"] if "iter" in it[2:3] else []
+                    inner = body_statements(su, st[a + 1:b])
+                    if len(inner) != 1 or texts(inner[0][0][:1]) != ["if"]:
+                        su.bad(st, f"{what}: the loop over `{env['seen']}` is not a single `if`")
+                    cond = texts(if_parts(inner[0][0], what))
+                    if cond == ["!"] + star + [flag]:
+                        rows.append(".forSeen false")
+                    elif cond == star + [flag]:
+                        rows.append(".forSeen true")
+                    else:
+                        su.bad(inner[0][0], f"{what}: the test of the loop over `{env['seen']}` is not `{flag}` / `!{flag}`")
+                else:
+                    su.bad(st, f"{what}: loop of an unknown shape")
+            else:
+                su.bad(st, f"{what}: statement of an unknown shape")
+        out.define(lean_name, "List PStmt", llist(rows, per_line=True), su, f"pub fn {fname}({rust_text(ps[0])}, {rust_text(ps[1])}) {{ … }}",
+                   "the statements in source order; `fail!` texts are not part of the translation")
+
+    checker("check_dim_names", "checkDimNamesBody", False)
+    checker("check_permutation", "checkPermutationBody", True)
+
+    # ---- write_list
+    sig, fb = fn_parts(su, su.toks, "write_list")
+    ps = params_of(su, sig)
+    if len(ps) != 2:
+        su.bad(sig, "write_list does not have two parameters")
+    S, items = param_name(su, ps[0]), param_name(su, ps[1])
+    stmts = body_statements(su, fb)
+    loops = [k for k, (st, _) in enumerate(stmts) if is_i(st[0], "for")]
+    if len(loops) != 1:
+        su.bad(fb, "write_list does not have exactly one `for` loop")
+    k = loops[0]
+
+    def s_writes(part, what):
+        res = []
+        for st, tail in part:
+            if tail and texts(st) == ["Ok", "(", "(", ")", ")"]:
+                continue
+            w = literal_write(su, st, S)
+            if w is None:
+                su.bad(st, f"write_list: {what}: not a write of a literal text into `{S}`")
+            res.append(w)
+        return "".join(res)
+
+    opening, closing = s_writes(stmts[:k], "statement before the loop"), s_writes(stmts[k + 1:], "statement after the loop")
+    loop = stmts[k][0]
+    a, b = block_after(su, loop, 1)
+    head = texts(loop[1:a])
+    if not (len(head) == 11 and head[0] == "(" and head[2] == "," and head[4:] == [")", "in", items, ".", "enumerate", "(", ")"] and b == len(loop) - 1
+            and is_i(loop[2]) and is_i(loop[4])):
+        su.bad(loop, f"the loop is not `for (idx, val) in {items}.enumerate() {{ … }}`")
+    idx, val = head[1], head[3]
+
+    def item_write(block, what):
+        inner = body_statements(su, block)
+        if len(inner) != 1:
+            su.bad(block, f"write_list: {what}: not a single write")
+        t = strip_try(inner[0][0])
+        if not (texts(t[:3]) == ["write", "!", "("] and match_close(t, 2, su.rel) == len(t) - 1):
+            su.bad(t, f"write_list: {what}: not a `write!`")
+        args = split_top(drop_trailing_comma(t[3:-1]), ",")
+        if not (len(args) in (2, 3) and texts(args[0]) in ([S], ["&", "mut", S]) and len(args[1]) == 1 and args[1][0].kind == "str"):
+            su.bad(t, f"write_list: {what}: not `write!({S}, \"…\")`")
+        pre, spec, post = split_placeholder(su, t, args[1][0].text)
+        if not ((spec == val and len(args) == 2) or (spec == "" and len(args) == 3 and texts(args[2]) == [val])):
+            su.bad(t, f"write_list: {what}: the placeholder does not display `{val}`")
+        return f"({lstr(pre)}, {lstr(post)})"
+
+    inner = body_statements(su, loop[a + 1:b])
+    if len(inner) != 1 or not is_i(inner[0][0][0], "if"):
+        su.bad(loop, "the loop body of write_list is not a single `if … else …`")
+    st = inner[0][0]
+    a1, b1 = block_after(su, st, 1)
+    if not (b1 + 2 < len(st) and is_i(st[b1 + 1], "else") and is_p(st[b1 + 2], "{") and match_close(st, b1 + 2, su.rel) == len(st) - 1):
+        su.bad(st, "the loop body of write_list is not `if … { … } else { … }`")
+    cond = st[1:a1]
+    if not (len(cond) == 3 and texts(cond[:1]) == [idx] and cond[1].kind == "punct" and cond[1].text in CMP and cond[2].kind == "num"):
+        su.bad(cond, f"the test is not `{idx} <op> INTEGER`")
+    out.define("writeListBody", "WriteListBody",
+               "{ opening := %s, op := %s, bound := %d, thenFmt := %s, elseFmt := %s, closing := %s }" % (
+                   lstr(opening), CMP[cond[1].text], int_lit(su, cond[2]), item_write(st[a1 + 1:b1], "then branch"),
+                   item_write(st[b1 + 3:-1], "else branch"), lstr(closing)),
+               su, rust_text(fb), "the item formats as (text before the item, text after it)")
+    return out.text()
+
+
 # ---------------------------------------------------------------- Messages
 
 def collect_messages(src):
@@ -1187,6 +1673,7 @@ GENERATORS = [
     ("ConstantsBuild", ["C05", "C16"], render_build),
     ("ConstantsSchema", ["C09", "C16"], render_schema),
     ("ConstantsExt", ["C20", "C16"], render_ext),
+    ("ConstantsExtUtils", ["C20"], render_ext_utils),
     ("ConstantsMessages", ["C05", "C08", "C09", "C14", "C15", "C16", "C20"], render_messages),
     ("Constants", [], render_umbrella),
 ]
